@@ -1,7 +1,7 @@
 use std::collections::HashMap;
 use std::io::Write;
 
-pub struct Args(HashMap<String, String>);
+pub struct Args(pub HashMap<String, String>);
 impl Args {
     pub fn parse(a: &[String]) -> Self {
         let mut m = HashMap::new();
@@ -18,6 +18,9 @@ impl Args {
             i += 1;
         }
         Args(m)
+    }
+    pub fn get(&self, k: &str) -> Option<String> {
+        self.0.get(k).cloned()
     }
     pub fn str(&self, k: &str, d: &str) -> String {
         self.0.get(k).cloned().unwrap_or_else(|| d.to_string())
